@@ -193,7 +193,7 @@ func vSpBtcSetup(maxOuts int) *vSpBtc {
 	e := &vSpBtc{}
 	vSpB = e
 	e.est = &vSpEstimator{}
-	e.chain = NewBitcoinOnChain(e.est, 0, 0, &chaincfg.RegressionNetParams)
+	e.chain = NewBitcoinOnChain(e.est, 0, 0, vBtcChain()) // a literal Params value: a global of the non-executed chaincfg package would be havocked (8x paths)
 	e.maker = zzverif.Bytes("maker", 33)
 	e.taker = zzverif.Bytes("taker", 33)
 	e.hash = zzverif.Bytes("hash", 32)
@@ -301,10 +301,9 @@ func vSpBtcVout(maxOuts int) {
 	}
 }
 
-// H_C03_btcVout: bounds 0..3 outputs (quick), 0..4 (thorough); values arbitrary int64, amount
-// arbitrary uint64, scripts arbitrary (<= 10000 bytes) or exactly the expected script.
-func H_C03_btcVout()   { vSpBtcVout(3) }
-func H_C03_T_btcVout() { vSpBtcVout(vSpMaxOuts) }
+// H_C03_btcVout: bounds 0..4 outputs; values arbitrary int64, amount arbitrary uint64, scripts
+// arbitrary (<= 10000 bytes) or exactly the expected script.
+func H_C03_btcVout() { vSpBtcVout(vSpMaxOuts) }
 
 const (
 	vSpPreimage = 0
@@ -407,15 +406,15 @@ func vSpBtcSpend(kind int, maxOuts int) {
 }
 
 // H_C03_btcPreimageSpend / CsvSpend / CoopSpend: on every opening transaction ValidateTx accepts
-// (0..2 outputs quick, 0..4 thorough) the spending transaction built with the adapter's
+// (0..3 outputs quick, 0..4 thorough) the spending transaction built with the adapter's
 // arguments has version 2, locktime 0, exactly one input spending (TxHash(opening), validated
 // vout) with empty scriptSig and nSequence 0 (preimage, coop) / 1008 (csv), exactly one output
 // paying OP_0 <wallet program> with value spent-200-fee (fee = GetFee(156 vB), or GetFee(250) for
 // coop unless that is 0), and the sighash is computed over (redeem script, input 0, SIGHASH_ALL,
 // spent value).  Fee rate arbitrary whole 0..65535 sat/vB.
-func H_C03_btcPreimageSpend()   { vSpBtcSpend(vSpPreimage, 2) }
-func H_C03_btcCsvSpend()        { vSpBtcSpend(vSpCsv, 2) }
-func H_C03_btcCoopSpend()       { vSpBtcSpend(vSpCoop, 2) }
+func H_C03_btcPreimageSpend()   { vSpBtcSpend(vSpPreimage, 3) }
+func H_C03_btcCsvSpend()        { vSpBtcSpend(vSpCsv, 3) }
+func H_C03_btcCoopSpend()       { vSpBtcSpend(vSpCoop, 3) }
 func H_C03_T_btcPreimageSpend() { vSpBtcSpend(vSpPreimage, vSpMaxOuts) }
 func H_C03_T_btcCsvSpend()      { vSpBtcSpend(vSpCsv, vSpMaxOuts) }
 func H_C03_T_btcCoopSpend()     { vSpBtcSpend(vSpCoop, vSpMaxOuts) }
